@@ -1,8 +1,10 @@
 package main
 
-// Child process: executes cases (first run with faults, then a second run in a fresh
-// session over the files that are left) and reports what it observed. It passes no
-// verdicts; the parent does.
+// Child process: executes single runs -- one program, one fresh session, one fresh
+// volume holding the given shard files, the given faults armed -- and reports what it
+// observed, including the files that are committed when the run returns (= when the
+// process ends). It passes no verdicts; the parent does, and the parent chains a first
+// run and the second run over the files it left.
 
 import (
 	"bufio"
@@ -39,13 +41,15 @@ type job struct {
 	ID     int            `json:"id"`
 	Prog   prog           `json:"prog"`
 	Exec   string         `json:"exec"`            // local | vsys
-	Files  map[int][]byte `json:"files,omitempty"` // pre-existing shard files
+	Files  map[int][]byte `json:"files,omitempty"` // shard files present when the run starts
 	Faults []fault        `json:"faults,omitempty"`
-	// Upstream = [shard, rows]: in the first run the source of that shard fails after
-	// that many rows (nil: never). The second run has no such failure.
+	// Upstream = [shard, rows]: the source of that shard fails after that many rows.
 	Upstream []int `json:"upstream,omitempty"`
-	Plain    bool  `json:"plain,omitempty"` // run the uncached program (op none), one run only
-	Keep   bool           `json:"keep,omitempty"`  // report the bytes of the files left by the first run
+	Plain    bool  `json:"plain,omitempty"` // run the uncached program (op none)
+	// Tries > 1 (fault-free runs only): a failed run is repeated, on a fresh copy of the
+	// same files, up to Tries times; only a run that fails every time is reported as
+	// failed (an overloaded machine makes the in-process cluster lose tasks).
+	Tries int `json:"tries,omitempty"`
 }
 
 type runObs struct {
@@ -71,18 +75,18 @@ type fileObs struct {
 	// Strict: error of decompressing the whole file in one shot (ZSTD_decompress, which
 	// unlike the streaming reader insists on a complete frame); "" if it is complete.
 	Strict string `json:"strict,omitempty"`
-	Bytes  []byte `json:"bytes,omitempty"` // only when asked for (reference runs)
+	Bytes  []byte `json:"bytes,omitempty"`
 }
 
 type result struct {
-	ID    int             `json:"id"`
-	Run1  *runObs         `json:"run1"`
-	Run2  *runObs         `json:"run2,omitempty"`
-	Snap  map[int]fileObs `json:"snap,omitempty"`  // files when the first process ended
-	Final map[int]fileObs `json:"final,omitempty"` // files after the second run
-	Extra []string        `json:"extra,omitempty"` // files under the volume that are no shard files
-	Hang  string          `json:"hang,omitempty"`  // which run hung
-	Dump  string          `json:"dump,omitempty"`
+	ID       int             `json:"id"`
+	Run      *runObs         `json:"run"`
+	After    map[int]fileObs `json:"after,omitempty"` // shard files committed when the run returned
+	Extra    []string        `json:"extra,omitempty"` // other files on the volume
+	Attempts int             `json:"attempts"`
+	Flaky    []string        `json:"flaky,omitempty"` // errors of attempts that were repeated
+	Hang     bool            `json:"hang,omitempty"`
+	Dump     string          `json:"dump,omitempty"`
 }
 
 const hangAfter = 120 * time.Second
@@ -235,7 +239,7 @@ func readShardFile(vol *vfs.FS, rel string) (rows []string, complete bool, errs 
 }
 
 // inspect decodes every shard file of a snapshot on a scratch volume.
-func inspect(files map[string][]byte, keepBytes bool) (map[int]fileObs, []string) {
+func inspect(files map[string][]byte) (map[int]fileObs, []string) {
 	out := map[int]fileObs{}
 	var extra []string
 	if len(files) == 0 {
@@ -255,9 +259,7 @@ func inspect(files map[string][]byte, keepBytes bool) (map[int]fileObs, []string
 		if _, err := zstd.Decompress(make([]byte, 1<<16), b); err != nil {
 			fo.Strict = err.Error()
 		}
-		if keepBytes {
-			fo.Bytes = b
-		}
+		fo.Bytes = b
 		out[s] = fo
 	}
 	sort.Strings(extra)
@@ -273,49 +275,36 @@ func runJob(j *job) *result {
 	if j.Plain {
 		op = "none"
 	}
-	volA := newVol()
-	defer volA.Reset()
-	for s, b := range j.Files {
-		volA.Put(shardRel(s), b)
+	tries := j.Tries
+	if tries < 1 || len(j.Faults) > 0 || j.Upstream != nil {
+		tries = 1
 	}
-	for _, f := range j.Faults {
-		volA.FailAt(f.Label, f.Mode)
-	}
-	res.Run1 = runOnce(j.Prog, op, j.Exec, volA, j.Upstream)
-	if res.Run1 == nil {
-		res.Hang = "run1"
-		return res
-	}
-	if j.Plain {
-		return res
-	}
-	// The first process is gone: what is committed now is what a new process finds.
-	// The second run gets its own volume, so that goroutines left over from the first
-	// session (a real process exit would have ended them) cannot touch its files.
-	snap := volA.Files()
-	res.Snap, res.Extra = inspect(snap, j.Keep)
-	volB := newVol()
-	defer volB.Reset()
-	for rel, b := range snap {
-		volB.Put(rel, b)
-	}
-	res.Run2 = runOnce(j.Prog, op, j.Exec, volB, nil)
-	if res.Run2 == nil {
-		res.Hang = "run2"
-		return res
-	}
-	var extra []string
-	res.Final, extra = inspect(volB.Files(), false)
-	for _, e := range extra {
-		dup := false
-		for _, x := range res.Extra {
-			dup = dup || x == e
+	for {
+		res.Attempts++
+		vol := newVol()
+		for s, b := range j.Files {
+			vol.Put(shardRel(s), b)
 		}
-		if !dup {
-			res.Extra = append(res.Extra, e)
+		for _, f := range j.Faults {
+			vol.FailAt(f.Label, f.Mode)
 		}
+		res.Run = runOnce(j.Prog, op, j.Exec, vol, j.Upstream)
+		if res.Run == nil {
+			res.Hang = true
+			return res
+		}
+		// The process is gone: what is committed now is what a new process finds.
+		// (The next run gets its own volume, so goroutines left over from this session
+		// -- a real process exit would have ended them -- cannot touch its files.)
+		snap := vol.Files()
+		vol.Reset()
+		if !res.Run.OK && res.Attempts < tries {
+			res.Flaky = append(res.Flaky, res.Run.Err)
+			continue
+		}
+		res.After, res.Extra = inspect(snap)
+		return res
 	}
-	return res
 }
 
 // childMain: one JSON job per input line, one JSON result per output line.
@@ -333,14 +322,14 @@ func childMain() {
 				os.Exit(2)
 			}
 			res := runJob(&j)
-			if res.Hang != "" {
+			if res.Hang {
 				buf := make([]byte, 1<<20)
 				buf = buf[:runtime.Stack(buf, true)]
 				res.Dump = trimDump(string(buf))
 			}
 			enc.Encode(res)
 			w.Flush()
-			if res.Hang != "" {
+			if res.Hang {
 				os.Exit(3)
 			}
 		}
